@@ -13,6 +13,10 @@ use crate::world::{self, Ev};
 pub const CANARY_ALIVE: u64 = 0xC0FF_EE00_600D_F00D;
 pub const CANARY_DEAD: u64 = 0xDEAD_DEAD_0BAD_F00D;
 
+/// Over-aligned on purpose: the value then does not start right after the allocation header, so
+/// every raw-pointer round trip (from_raw, increment/decrement_strong_count) exercises the
+/// padded layout as well (the repository's own tests only use word-aligned payloads).
+#[repr(align(16))]
 pub struct Node {
     pub id: u32,
     pub canary: Cell<u64>,
